@@ -120,6 +120,22 @@ class _SynthCtx(object):
     def notimpl(self):
         raise Unimpl()
 
+    def threshold(self, name, key):
+        base, _ = split_inst(self.forminst)
+        t = (self.m.forms[base].get('thresholds') or {}).get(name)
+        if t is None:
+            raise Abort('line-error', f'no threshold {name}')
+        if isinstance(t, dict):
+            if key is None:
+                raise Abort('line-error', f'threshold {name} needs a key')
+            for members, value in t['table']:
+                if getattr(key, 'enum_name', None) == t['enum'] and key.name in members:
+                    return value
+            raise Abort('line-error', f'threshold {name} has no entry for {key}')
+        if key is not None:
+            raise Abort('line-error', f'threshold {name} takes no key')
+        return t
+
     def enum_member(self, ename, member):
         return EV(ename, member)
 
@@ -293,9 +309,12 @@ class R1Synth(object):
 def synth_final_inputs(case, supplied_names, run=None):
     """model-side typed inputs for the names that were supplied in a run"""
     out = {}
+    noise = {f'{sec}.{key}' for sec, key, _ in case.get('noise') or []}
     for n in supplied_names:
         p = case['persona'].get(n)
         if p is None:
+            if n in noise:
+                continue           # a section nothing reads (its name differs in case from a real one)
             raise core.HarnessError(f'input {n} supplied but not in persona')
         if 'default_text' in p and run is not None and n not in run.monitor.answered:
             sec, key = n.rsplit('.', 1)
